@@ -1116,9 +1116,24 @@ class BlockwiseRequest(BaseUnicastRequest, interfaces.Request):
         try:
             async for block1_notification in lower_observation:
                 log.debug("Notification received")
-                full_notification = await cls._complete_by_requesting_block2(
-                    protocol, original_request, block1_notification, log
-                )
+                try:
+                    full_notification = await cls._complete_by_requesting_block2(
+                        protocol, original_request, block1_notification, log
+                    )
+                except (error.NetworkError, error.LibraryShutdown):
+                    raise
+                except error.Error as e:
+                    # The body of this one notification could not be
+                    # assembled -- typically because the representation
+                    # changed while its later blocks were being fetched. That
+                    # is no statement about the observation, which the server
+                    # still sustains: the next notification is already
+                    # pending or due.
+                    log.warning(
+                        "Discarding a notification whose body could not be fetched: %r",
+                        e,
+                    )
+                    continue
                 log.debug("Reporting completed notification")
                 weak_observation().callback(full_notification)
             # FIXME verify that this loop actually ends iff the observation
